@@ -332,7 +332,7 @@ impl Scenario for C01 {
             let a = rng.below(nn) as u8;
             let b = ((u64::from(a) + 1 + rng.below(nn - 1)) % nn) as u8;
             let mut f: Vec<Step> = Vec::new();
-            let mut deliver = |f: &mut Vec<Step>, rng: &mut Rng, lo: u64, hi: u64| {
+            let deliver = |f: &mut Vec<Step>, rng: &mut Rng, lo: u64, hi: u64| {
                 for _ in 0..rng.range(lo, hi) {
                     f.push(Step::Deliver { pick: 0 });
                 }
